@@ -413,6 +413,14 @@ def instantiate(hyps, goal_parts, rounds=2, per_quant=400, cap=8000, unfold=None
 
 def build_query(hyps, goal, quantified=False, models=True, extra_instances=True, nlmul=False, unfold=None):
     """Returns (text, info).  Query is sat iff goal can fail under hyps."""
+    saved = T.swap_counter(start=50000000)
+    try:
+        return _build_query(hyps, goal, quantified, models, extra_instances, nlmul, unfold)
+    finally:
+        T.swap_counter(new=saved)
+
+
+def _build_query(hyps, goal, quantified=False, models=True, extra_instances=True, nlmul=False, unfold=None):
     ghyps, concl = split_goal(goal)
     all_h = list(hyps) + ghyps
     # an existential conclusion: its negation is a universal hypothesis (instantiated like the others)
